@@ -533,7 +533,7 @@ Lemma pos_scope_set n p s : pos (scope_set n p s) = pos s.
 Proof. unfold scope_set. destruct (str_eqb _ _); [reflexivity|]. destruct (scs s); reflexivity. Qed.
 Lemma pos_mark n s : pos (mark n s) = pos s.
 Proof. reflexivity. Qed.
-Lemma pos_push_scope a b s : pos (push_scope a b s) = pos s.
+Lemma pos_push_scope a b c s : pos (push_scope a b c s) = pos s.
 Proof. reflexivity. Qed.
 Lemma pos_push_inherit b s : pos (push_inherit b s) = pos s.
 Proof. reflexivity. Qed.
@@ -576,7 +576,7 @@ Ltac pfact t :=
   | snd (validate_var_decl ?B ?n ?p ?a ?x) => pfact x; pose proof (pos_validate_var_decl B n p a x)
   | scope_set ?n ?p ?x => pfact x; pose proof (pos_scope_set n p x)
   | mark ?n ?x => pfact x; pose proof (pos_mark n x)
-  | push_scope ?a ?b ?x => pfact x; pose proof (pos_push_scope a b x)
+  | push_scope ?a ?b ?c ?x => pfact x; pose proof (pos_push_scope a b c x)
   | push_inherit ?b ?x => pfact x; pose proof (pos_push_inherit b x)
   | pop_scope ?x => pfact x; pose proof (pos_pop_scope x)
   | validate_scope ?x => pfact x; pose proof (pos_validate_scope x)
@@ -640,7 +640,7 @@ Proof.
   - destruct (expr_list_total (parse_expr (env_of B s) (efuel (cs s))) (here (cs s))
               (expr_fuel_suffices _ _) (efuel (cs s)) [] (advance (cs s))) as (a & c' & Q1 & Q2); [lia|unfold efuel; lia|].
     rewrite Q1. unfold ret. do 2 eexists. split; [reflexivity|]. rewrite pos_collect. unfold pos in *.
-    destruct (tyerr _ _ _ _); unfold here in *; simpl; lia.
+    destruct (arity_wrong _ _ _); [|destruct (tyerr _ _ _ _)]; unfold here in *; simpl; lia.
   - unfold ret. do 2 eexists. split; [reflexivity|]. rewrite pos_collect. unfold pos in *. lia.
 Qed.
 
@@ -964,7 +964,7 @@ Proof.
   match goal with |- pos {| cs := cs ?x; scs := _; fns := _; bodies := _; hds := _ |} < _ =>
     change (pos x < pos s); pose proof (pos_finish_end (if fi_ret
       (match (if match ct (adv s) with T_IDENT => true | _ => false end then lookup_fn (tlit (cur (cs (adv s)))) (fns (apnl (adv s))) else None) with
-       | Some fi => fi | None => {| fi_nil := true; fi_ret := false; fi_params := [] |} end) && negb (block_terms b)
+       | Some fi => fi | None => {| fi_nil := true; fi_ret := false; fi_arity := Some 0; fi_params := [] |} end) && negb (block_terms b)
       then serr K_missing_return s4 else s4)) as HF end.
   destruct (_ && _) in HF |- *; rewrite ?pos_serr in HF; lia.
 Qed.
@@ -1091,7 +1091,7 @@ Proof.
 Qed.
 
 Theorem errors_located B raw eof es :
-  parse B raw eof = Reject es -> forall p, In p es -> In p (eof :: map snd raw).
+  parse B raw eof = Reject es -> forall p, In p es -> In p (eof :: map snd raw) \/ p = (0, 0).
 Proof.
   unfold parse.
   set (good := filter (fun tp => negb (is_illegal (fst tp))) raw).
@@ -1101,13 +1101,15 @@ Proof.
     apply filter_In in Hin as [Hin _]. apply in_map_iff. eauto. }
   assert (Hill : forall p, In p (map snd (filter (fun tp => is_illegal (fst tp)) raw)) -> In p (eof :: map snd raw)).
   { intros p H. right. apply in_map_iff in H as (x & Hx & Hin). apply filter_In in Hin as [Hin _]. apply in_map_iff. eauto. }
-  assert (Hloc : forall l p, In p (map (fun e : perr * nat => locate poss eof (snd e)) l) -> In p (eof :: map snd raw)).
-  { intros l p H. apply in_map_iff in H as (x & <- & _). apply Hsub. apply locate_in. }
+  set (loc := fun e : perr * nat => match fst e with E_arity => (0, 0) | _ => locate poss eof (snd e) end).
+  assert (Hloc : forall l p, In p (map loc l) -> In p (eof :: map snd raw) \/ p = (0, 0)).
+  { intros l p H. apply in_map_iff in H as (x & <- & _). unfold loc.
+    destruct (fst x); try (left; apply Hsub; apply locate_in). right; reflexivity. }
   destruct (signatures B tEOF toks _) as [u s1| |]; try discriminate.
   destruct (_ ++ _) as [|e0 es0] eqn:ES.
   - destruct (program_loop B (fuel_of toks) [] false _) as [prog s3| |]; try discriminate.
     destruct (map _ (rev (errs (cs (validate_scope s3))))) as [|e1 es1] eqn:EM; [discriminate|].
-    intro H; inversion H; subst. intros p Hp. apply (Hloc (rev (errs (cs (validate_scope s3))))). rewrite EM. exact Hp.
-  - intro H; inversion H; subst. intros p Hp. rewrite <- ES in Hp. apply in_app_or in Hp as [Hp|Hp]; [apply Hill; exact Hp|].
+    intro H; inversion H; subst. intros p Hp. apply (Hloc (rev (errs (cs (validate_scope s3))))). fold loc in EM. rewrite EM. exact Hp.
+  - intro H; inversion H; subst. intros p Hp. rewrite <- ES in Hp. apply in_app_or in Hp as [Hp|Hp]; [left; apply Hill; exact Hp|].
     eapply Hloc; exact Hp.
 Qed.
